@@ -88,14 +88,14 @@ def scalar_to_py(s):
     if k == "int":
         return int(s[1])
     if k == "float":
-        return s[1] / 64.0
+        return f64_to_py(s[1])
     if k == "str":
         return s[1]
     if k == "bytes":
         return bytes(s[1])
     if k == "struct":
         f = list(s[2]) + [0] * (STRUCT_ARITY[s[1]] - len(s[2]))   # the grid's sample struct has two fields
-        return struct_cls(s[1])(*[x / 64.0 for x in f])
+        return struct_cls(s[1])(*[f64_to_py(x) for x in f])
     return None
 
 
@@ -159,12 +159,70 @@ def as_topic_value(ts, pv):
     return pv
 
 
+# Floats: the model's SFloat n stands for n/64 (exact for the values the generator draws; int -> double is 64*z).  Every OTHER
+# double -- a near-neighbour of such a value: nextafter, x*(1 +- 1e-12), 0.1 + 0.2 -- enters the model as an opaque, distinct
+# value: _FX + its IEEE-754 bit pattern.  The model only ever asks whether two values are the same (latest write wins, exact;
+# ntcore's duplicate test is == on the doubles), so the encoding has to be injective, nothing more.
+_FX = 1 << 200
+
+
 def _f64(x):
+    import math
     x = float(x)
+    if not math.isfinite(x):
+        raise ValueError("not a finite float: %r" % x)
     n = x * 64.0
-    if n != int(n) or abs(n) > 2 ** 62:
-        raise ValueError("not dyadic/64: %r" % x)
-    return int(n)
+    if math.isfinite(n) and n == int(n) and abs(n) <= 2 ** 62:
+        return int(n)
+    return _FX + struct.unpack("<Q", struct.pack("<d", x))[0]
+
+
+def f64_to_py(n):
+    if n >= _FX:
+        return struct.unpack("<d", struct.pack("<Q", n - _FX))[0]
+    return n / 64.0
+
+
+def show(x):
+    """JSON text of an observation / value in which the floats outside the n/64 grid are written as Python writes them"""
+    def walk(v):
+        if isinstance(v, list):
+            if len(v) == 2 and v[0] == "float" and isinstance(v[1], int) and v[1] >= _FX:
+                return ["float", "python float %r" % f64_to_py(v[1])]
+            return [walk(e) for e in v]
+        return v
+    return json.dumps(walk(x))
+
+
+def near_float(r, s):
+    """a float scalar pv that is very close to, but not the same as, s"""
+    import math
+    x = f64_to_py(s[1])
+    how = r.randrange(5)
+    if how == 0:
+        y = math.nextafter(x, math.inf)
+    elif how == 1:
+        y = math.nextafter(x, -math.inf)
+    elif how == 2:
+        y = x * (1 + 1e-12)
+    elif how == 3:
+        y = x * (1 - 1e-12)
+    else:
+        y = x + 0.1 + 0.2 - 0.3                      # 0.1 + 0.2 is not 0.3
+    if y == x or not math.isfinite(y):
+        y = math.nextafter(x, math.inf)
+    return ["float", _f64(y)]
+
+
+def near_value(r, pv):
+    """pv with (one or all of) its floats moved to a near-neighbour; None when there is no float in it"""
+    pv = canon(pv)
+    if pv[0] == "float":
+        return near_float(r, pv)
+    if pv[0] == "list" and pv[1] and all(e[0] == "float" for e in pv[1]):
+        k = r.randrange(len(pv[1])) if r.random() < 0.6 else None
+        return ["list", [near_float(r, e) if (k is None or j == k) else e for j, e in enumerate(pv[1])]]
+    return None
 
 
 def scalar_from_py(x, base):
@@ -1364,6 +1422,17 @@ def gen_case(r, tag):
                     ver[insts[i]][a] = ver[insts[i]].get(a, 0) + 1
 
     readers = {}                                    # key -> [(instance, attr)] bound to it
+    holds = {}                                      # float topics: key -> the value it (probably) holds now
+
+    def note(key, ts, pv):
+        if ts in ("double", "double[]"):
+            holds[key] = as_topic_value(ts, pv)
+
+    def maybe_near(key, v):
+        """20% of the writes to a float topic: a value very close to, but not the same as, what the topic holds"""
+        if key in holds and r.random() < 0.2:
+            return near_value(r, holds[key]) or v
+        return v
 
     def do_setup(i, owner):
         need(i)
@@ -1372,7 +1441,10 @@ def gen_case(r, tag):
         bver[i] = {a: ver[insts[i]].get(a, 0) for a in cur[insts[i]]}
         for d in cur[insts[i]].values():
             if not d["attr"].startswith("_"):
-                readers.setdefault(doc_key(owner[0], owner[1], d["subtable"], d["attr"]), []).append((i, d["attr"]))
+                kk = doc_key(owner[0], owner[1], d["subtable"], d["attr"])
+                readers.setdefault(kk, []).append((i, d["attr"]))
+                if d["kind"][0] == "float" and (d["wd"] is not False or kk not in holds):
+                    note(kk, (ARRAY_TS if d["kind"][1] else SCALAR_TS)["float"], d["default"])
 
     def pick_decl(i):
         """a tunable of instance i's class; mostly one the instance is bound to as the class has it now"""
@@ -1530,11 +1602,19 @@ def gen_case(r, tag):
                 ops.append(["pyw", i, d["attr"], frac if not d["kind"][1] else ["list", [frac] + [gen_scalar(r, "float") for _ in range(r.choice([0, 1]))]]])
             else:
                 ops.append(["pyw", i, d["attr"], gen_value(r, tuple(d["kind"]), pyform=True)])
+            if d["kind"][0] == "float" and i in bound:
+                kk = doc_key(bound[i][0], bound[i][1], d["subtable"], d["attr"])
+                ops[-1][3] = maybe_near(kk, ops[-1][3])
+                note(kk, (ARRAY_TS if d["kind"][1] else SCALAR_TS)["float"], ops[-1][3])
+                if r.random() < 0.3:
+                    ops.append(["pyr", i, d["attr"]])
         elif k < 0.63:
             ops.append(["pyr", i, d["attr"]])
         elif k < 0.78 and known_keys:
             key, ts, kind = r.choice(known_keys)
-            ops.append(["ntw", key, ts, gen_value(r, kind)] + gen_stamp())
+            ops.append(["ntw", key, ts, maybe_near(key, gen_value(r, kind))] + gen_stamp())
+            if not (len(ops[-1]) > 4 and ops[-1][4] == "older"):
+                note(key, ts, ops[-1][3])
             if key in readers and r.random() < 0.35:
                 ops.append(["pyr"] + list(r.choice(readers[key])))   # the dashboard changes a value, the component reads it next
         elif k < 0.95 and known_keys:
@@ -2165,10 +2245,10 @@ def oracle_case(case, obs):
             else:
                 want = topics[e[0]][1]
                 if o != ["val", want]:
-                    got = "the tunable object itself (not a value)" if o == ["self"] else json.dumps(o)
+                    got = "the tunable object itself (not a value)" if o == ["self"] else show(o)
                     return fail("c09-read-not-latest",
                                 "attribute read gives %s, the latest value written to its topic %s (from either side, "
-                                "or the default at setup) is %s; %s" % (got, e[0], json.dumps(want), owner_state(n, op[1])))
+                                "or the default at setup) is %s; %s" % (got, e[0], show(want), owner_state(n, op[1])))
         elif op[0] == "ntw":
             # an update the client stamps OLDER than the value the topic holds is not the latest value
             # (ntcore drops it); stamped "now" or "the same" it is
@@ -2181,7 +2261,7 @@ def oracle_case(case, obs):
                 # search prefers a failure of a clause about a documented key)
                 return fail("c09-topic-at-documented-key" if want is not None else "c09-topic-outside-documented-keys",
                             "an independent subscriber at %s sees %s, the property (documented key, topic type, "
-                            "writeDefault, latest write) requires %s" % (op[1], json.dumps(o[1]), json.dumps(want)))
+                            "writeDefault, latest write) requires %s" % (op[1], show(o[1]), show(want)))
     return None
 
 
@@ -2983,6 +3063,15 @@ def gen_loop_case(r, tag):
     def stamp():
         return [r.choice(["same", "now", "now"])] if stamping and r.random() < 0.5 else []
 
+    holds = {}
+
+    def nearish(key, ts, v):
+        if ts in ("double", "double[]"):
+            if key in holds and r.random() < 0.25:
+                v = near_value(r, holds[key]) or v
+            holds[key] = as_topic_value(ts, v)
+        return v
+
     def some_ops(w, me, n):
         """n ops at location w; `me`: the component whose code runs (None: the robot's / the harness's)"""
         k = 0
@@ -2994,17 +3083,17 @@ def gen_loop_case(r, tag):
             x = r.random()
             if x < 0.22:
                 # the dashboard changes a value during the pass, the component then assigns the same tunable and reads it
-                add(["ntw", key, ts, gen_value(r, kind)] + stamp(), w)
+                add(["ntw", key, ts, nearish(key, ts, gen_value(r, kind))] + stamp(), w)
                 if paused and r.random() < 0.3:
                     add(["tick", r.choice([1, 5000])], w)
-                add(["pyw", i, a, gen_value(r, kind, pyform=True)], w)
+                add(["pyw", i, a, nearish(key, ts, gen_value(r, kind, pyform=True))], w)
                 add(["pyr", i, a], w)
             elif x < 0.45:
-                add(["pyw", i, a, gen_value(r, kind, pyform=True)], w)
+                add(["pyw", i, a, nearish(key, ts, gen_value(r, kind, pyform=True))], w)
             elif x < 0.7:
                 add(["pyr", i, a], w)
             elif x < 0.82:
-                add(["ntw", key, ts, gen_value(r, kind)] + stamp(), w)
+                add(["ntw", key, ts, nearish(key, ts, gen_value(r, kind))] + stamp(), w)
             elif x < 0.92 or not paused:
                 add(["ntr", key], w)
             else:
@@ -3516,6 +3605,8 @@ def run(ctx):
                 d = kinds_i[op[1]].get(op[2])
                 if d is not None and d["kind"][0] == "float":
                     vs = op[3][1] if op[3][0] in ("list", "tuple") else [op[3]]
+                    if any(e[0] == "float" and e[1] >= _FX for e in vs):
+                        ctx.count("pyw:float that is a near-neighbour (nextafter, x(1+-1e-12), +0.1+0.2-0.3) of the topic's value")
                     if any(e[0] == "int" for e in vs):
                         ctx.count("pyw:int value on a double topic")
                     elif literal_is_int(d) and any(e[1] % 64 for e in vs):
